@@ -3,7 +3,7 @@
    other observables, by comparing the implementation's results across layouts of the same model): the tree depends
    on the token sequence only, and the layout choices do not change the token sequence. *)
 From Coq Require Import List NArith Bool.
-From JS Require Import Base.Res Spec.JsonGrammar Model.EnumParse Model.SchemaText Proofs.SchemaTextProofs.
+From JS Require Import Base.Res Spec.JsonGrammar Model.EnumParse Model.SchemaText Proofs.SchemaTextProofs Proofs.AnnotationProofs.
 Import ListNotations.
 Local Open Scope N_scope.
 
@@ -58,3 +58,34 @@ Theorem C14_layout_independent : forall v tv s1 s2, TR v tv -> SLay s1 tv -> SLa
   sparse s1 = Some v /\ sparse s2 = Some v.
 Proof. intros v tv s1 s2 Ht H1 H2. split; eapply sparse_layout; eassumption. Qed.
 Print Assumptions C14_layout_independent.
+
+(* ---- the inside of an annotation: RV rv s - the text s is a writing of the rule value rv (bare or quoted rule names,
+   scalars, @names, lists, rule-sets, any blanks between the tokens).  Every writing is read back ... *)
+Theorem C14_rule_object : forall v s, RV v s -> forall r f, vterm r \/ (exists ms, v = RObj ms) -> (2 * length s <= f)%nat ->
+  prval f (s ++ r) = Some (v, r).
+Proof. exact (proj1 prval_complete). Qed.
+Print Assumptions C14_rule_object.
+(* ... and so is the annotation around it: rule object, optional "- note", optional "# comment" on the line; or in a
+   block, up to the closing mark (a closing mark inside a string of the rule object does not close it) *)
+Theorem C14_annotation_rules : forall ms obj w0 w1 tail, RV (RObj ms) obj -> ws w0 -> ws w1 -> comment_tail tail ->
+  parse_ann (w0 ++ obj ++ w1 ++ tail) = Some (mk_ann ms []).
+Proof. exact ann_rules_complete. Qed.
+Theorem C14_annotation_rules_note : forall ms obj w0 w1 note tail, RV (RObj ms) obj -> ws w0 -> ws w1 ->
+  Forall (fun c => c <> 35) note -> comment_tail tail ->
+  parse_ann (w0 ++ obj ++ w1 ++ 45 :: note ++ tail) = Some (mk_ann ms (trim note)).
+Proof. exact ann_rules_note_complete. Qed.
+Theorem C14_block_rules : forall ms obj w0 mid after, RV (RObj ms) obj -> ws w0 ->
+  (forall u v, mid <> u ++ 42 :: 47 :: v) -> (forall u, mid <> u ++ [42]) ->
+  block_ann (w0 ++ obj ++ mid ++ 42 :: 47 :: after) =
+  match trim_left mid with [] => Some (mk_ann ms [], after) | 45 :: note => Some (mk_ann ms (trim note), after) | _ => None end.
+Proof. exact block_rules_complete. Qed.
+Print Assumptions C14_annotation_rules.
+Print Assumptions C14_annotation_rules_note.
+Print Assumptions C14_block_rules.
+(* the same annotation written on the line or in a block is the same token of the layout *)
+Theorem C14_rules_line_or_block : forall ms obj w0 w1 r1 r2 t, RV (RObj ms) obj -> ws w0 -> ws w1 ->
+  no_nl_b (w0 ++ obj ++ w1 ++ []) -> line_end r1 -> SLay r1 t -> SLay r2 t ->
+  exists s1 s2, SLay s1 (KAnn (mk_ann ms []) :: t) /\ SLay s2 (KAnn (mk_ann ms []) :: t) /\
+                s1 = 47 :: 47 :: (w0 ++ obj ++ w1 ++ []) ++ r1 /\ s2 = 47 :: 42 :: w0 ++ obj ++ w1 ++ 42 :: 47 :: r2.
+Proof. exact rules_line_or_block. Qed.
+Print Assumptions C14_rules_line_or_block.
